@@ -1,5 +1,5 @@
 CONSTANTS EmitCases = TRUE
 INIT Init
 NEXT Next
-INVARIANTS TypeOK Inv_OnlyJsonPostReachesRpc Inv_ProxyCallsMapped Inv_RefusedRunsNothing Inv_FilterAlwaysDecides Inv_ProxiedAnswerIsBare Inv_UnproxiedAnswerUntouched Emit
+INVARIANTS TypeOK Inv_OnlyJsonPostReachesRpc Inv_ProxyCallsMapped Inv_RefusedRunsNothing Inv_FilterAlwaysDecides Inv_ModeRespected Inv_ProxiedAnswerIsBare Inv_UnproxiedAnswerUntouched Emit
 CHECK_DEADLOCK FALSE
